@@ -197,10 +197,22 @@ class RecPublisher:
 class RecSubscriber:
     def __init__(self, H, oid=None):
         self.H, self.oid, self.subscription = H, oid, None
+        self.did_in_subscribe = None
+        self.in_subscribe = None      # ['SRQ', n] / ['SCN']: what the application does *inside* on_subscribe (the usual reactive-streams place for it)
 
     def on_subscribe(self, subscription):
         self.subscription = subscription
         self.H.out('OS:%d' % self.oid)
+        act, self.in_subscribe = self.in_subscribe, None
+        self.did_in_subscribe = act
+        if act:
+            # a nested entry point: logged as the next event (the request frame must already be queued when on_subscribe runs)
+            if act[0] == 'SRQ':
+                self.H.mark('SRQ:%d:%d' % (self.oid, act[1]))
+                subscription.request(act[1])
+            else:
+                self.H.mark('SCN:%d' % self.oid)
+                subscription.cancel()
 
     def on_next(self, value, is_complete=False):
         self.H.out('ON:%d:%s:%s' % (self.oid, tstr(bytes_to_tags(value.data)), '1' if is_complete else '0'))
@@ -492,6 +504,7 @@ class EngineRun:
                 self.out('CR:%d:%d' % (noid, req.stream_id))
                 req.initial_request_n(s['n'])
                 if s['sub']:
+                    sub.in_subscribe = s.get('insub')
                     req.subscribe(sub)
             elif op == 'RC':
                 self.mark('RC:%s:%d:%d:%d' % (tstr(s['data']), s['n'], 1 if s['pub'] else 0, 1 if s['sub'] else 0))
@@ -505,10 +518,12 @@ class EngineRun:
                 self.out('CR:%d:%d' % (noid, req.stream_id))
                 req.initial_request_n(s['n'])
                 if s['sub']:
+                    sub.in_subscribe = s.get('insub')
                     req.subscribe(sub)
             elif op == 'SUB':
                 self.mark('SUB:%d' % oid)
                 if o['kind'] in ('stReq', 'chReq') and o['sub'].subscription is None:
+                    o['sub'].in_subscribe = s.get('insub')
                     o['req'].subscribe(o['sub'])
             elif op == 'SRQ':
                 self.mark('SRQ:%d:%d' % (oid, s['n']))
